@@ -267,8 +267,241 @@ def c02_stray_tag_marker(ctx, checks):
                        {"kind": "ID3", "tag_bytes_before_end": back, "had_id3v2": with_v2, "v1": v1, "audio_len": len(audio), "after_len": len(rest)})
 
 
-def run(ctx, checks):
-    for fn in (c01_pictures, c09_easy, c08_ape_stale_fragments, c02_stray_tag_marker):
+# ------------------------------------------------------------------------------------------ Ogg: size-boundary sweeps
+def _ogg_ident(kname):
+    """identification packet of the first real sample of the kind (None: no sample)"""
+    import os
+    from . import synth_ogg as SO
+    for name in KM.SAMPLES[kname]:
+        pth = os.path.join(KM.DATA, name)
+        if os.path.exists(pth):
+            with open(pth, "rb") as h:
+                return SO.ident_packet(h.read(), KINDS[kname].codec)
+    return None
+
+
+def _ogg_multipage(kname, vendor, big):
+    """a layout whose comment packet spans two pages of its own and is followed by a packet on a fresh page"""
+    from . import synth_ogg as SO
+    ident = _ogg_ident(kname)
+    if ident is None:
+        return None
+    items = [b"TITLE=old title", b"COVERART=" + b"QUJD" * (big // 4)]
+    c = KINDS[kname].codec
+    if c == "flac":
+        return SO.oggflac(ident, vendor, items, behind=[(1, bytes(64))], comment_pages=True)
+    return SO.headers_own_pages(c, ident, SO.comment_packet(c, vendor, items))
+
+
+def _ogg_judge(ctx, checks, kind, w0, out, d, expect_items, op):
+    """the walker's verdict on the bytes after one operation; -> walker result or None"""
+    try:
+        w1 = kind.walk(out)
+    except W.Bad as e:
+        short = str(e)[:80]
+        if "C03" in checks:
+            _v(ctx, "C03", "%s: file structurally invalid after %s (%s)" % (kind.name, op, short.split(" serial")[0]), dict(d, walker=str(e)[:200]))
+        if "C02" in checks:
+            _v(ctx, "C02", "%s: other packets cannot be located after %s (%s)" % (kind.name, op, short.split(" serial")[0]), dict(d, walker=str(e)[:200]))
+        if op == "delete" and "C08" in checks:
+            _v(ctx, "C08", "%s: file cannot be walked after delete (%s)" % (kind.name, short.split(" serial")[0]), dict(d, walker=str(e)[:200]))
+        if op == "save" and "C01" in checks:
+            _v(ctx, "C01", "%s: saved bytes do not decode under the independent reader (%s)" % (kind.name, short.split(" serial")[0]), dict(d, walker=str(e)[:200]))
+        return None
+    if w1["foreign"] != w0["foreign"] and "C02" in checks:
+        lab = next((a[0] for a, c in zip(w0["foreign"], w1["foreign"]) if a != c), "?")
+        _v(ctx, "C02", "%s: packets other than the comment packet altered by %s" % (kind.name, op), dict(d, element=lab))
+    got = [(k.lower(), v) for k, v in w1["tags"]["items"]]
+    if got != expect_items:
+        pid = "C08" if op == "delete" else "C01"
+        if pid in checks:
+            _v(ctx, pid, "%s: %s" % (kind.name, "tags still present in the file after delete" if op == "delete" else
+                                     "independent decoding of the saved bytes differs from what was set"), dict(d, decoded=repr(got)[:160]))
+    return w1
+
+
+def ogg_lacing_sweep(ctx, checks):
+    """a comment packet spanning several pages, followed by a packet on a fresh page: the length of the new comment packet
+    sweeps a full residue class modulo 255 (padding 0), so every position of its end inside the lacing table of the last
+    rewritten page occurs -- for save (title length) and for delete (vendor length, the only free size of an empty
+    comment).  Judged by the independent walker: page structure (C03), all other packets and streams (C02), the decoded
+    comment (C01 / C08), and a reload"""
+    if not {"C01", "C02", "C03", "C08"} & set(checks):
+        return
+    for kname, nsave, ndel in (("OggVorbis", 256, 256), ("OggFLAC", 256, 0)):
+        kind = KINDS[kname]
+        # large enough to stay on two pages under mutagen's own pagination (4080 + up to 2048 bytes go into one page)
+        data0 = _ogg_multipage(kname, b"sweep vendor", 6400)
+        if data0 is None:
+            continue
+        try:
+            w0 = kind.walk(data0)
+            kind.open(io.BytesIO(data0))
+        except Exception as e:
+            ctx.disagree("fam.directed", "ogg_lacing_sweep: layout not usable: %s" % str(e)[:80], {"kind": kname})
+            continue
+        cur = data0
+        big = [(k.lower(), v) for k, v in w0["tags"]["items"] if k != b"TITLE"]
+        for n in range(nsave if {"C01", "C02", "C03"} & set(checks) else 0):
+            d = {"kind": kname, "layout": "comment on two pages of its own", "op": "save", "title_len": n, "padding": 0}
+            try:
+                o = kind.open(io.BytesIO(cur))
+                o.tags["title"] = ["t" * n]
+                b = io.BytesIO(cur)
+                o.save(b, padding=lambda info: 0) if kind.padding else o.save(b)
+                out = b.getvalue()
+            except mutagen.MutagenError:
+                continue
+            except Exception as e:
+                if "C03" in checks:
+                    _v(ctx, "C03", "%s: save raised %s on a well-formed file" % (kname, type(e).__name__), d)
+                cur = data0
+                continue
+            ctx.oracle_cases += 1
+            ctx.count("ogg:lacing-sweep-save")
+            ctx.case((kname, "lacing-sweep", "save", n))
+            w1 = _ogg_judge(ctx, checks, kind, w0, out, d, big + [(b"title", b"t" * n)], "save")
+            if w1 is None:
+                cur = data0
+                continue
+            if "C01" in checks:
+                try:
+                    re = kind.open(io.BytesIO(out)).tags.get("title")
+                except Exception as e:
+                    re = ("LOADFAIL", type(e).__name__)
+                if re != ["t" * n]:
+                    _v(ctx, "C01", "%s: reloaded tags differ from what was set" % kname, dict(d, reloaded=repr(re)[:80]))
+            cur = out
+        for n in range(ndel if {"C02", "C03", "C08"} & set(checks) else 0):
+            d = {"kind": kname, "layout": "comment on two pages of its own", "op": "delete", "vendor_len": n}
+            vendor = (b"vendor string of a sweep " * 11)[:n]
+            f0 = _ogg_multipage(kname, vendor, 4400)
+            try:
+                wf = kind.walk(f0)
+                o = kind.open(io.BytesIO(f0))
+                b = io.BytesIO(f0)
+                o.delete(b)
+                out = b.getvalue()
+                b2 = io.BytesIO(f0)
+                kind.module_delete()(b2)
+            except mutagen.MutagenError:
+                continue
+            except Exception as e:
+                if "C03" in checks:
+                    _v(ctx, "C03", "%s: delete raised %s on a well-formed file" % (kname, type(e).__name__), d)
+                continue
+            ctx.oracle_cases += 1
+            ctx.count("ogg:lacing-sweep-delete")
+            ctx.case((kname, "lacing-sweep", "delete", n))
+            if b2.getvalue() != out and "C08" in checks:
+                _v(ctx, "C08", "%s: delete() of the module and of the object leave different files" % kname, d)
+            w1 = _ogg_judge(ctx, checks, kind, wf, out, d, [], "delete")
+            if w1 is None:
+                continue
+            if "C08" in checks:
+                if w1["tags"]["vendor"] != vendor or w1["padding"] not in (None, 0):
+                    _v(ctx, "C08", "%s: tag padding left in the file after delete" % kname if w1["padding"] else
+                       "%s: vendor string changed by delete" % kname, dict(d, padding=w1["padding"]))
+                try:
+                    re = list(kind.open(io.BytesIO(out)).tags)
+                except Exception as e:
+                    re = ("LOADFAIL", type(e).__name__)
+                if re != []:
+                    _v(ctx, "C08", "%s: file loads with tags after delete" % kname, dict(d, tags=repr(re)[:80]))
+
+
+TRAILER_MARK = b"Trailer-Mark-7Q"
+
+
+def ogg_opus_trailer_sweep(ctx, checks):
+    """OpusTags packets with data behind the comment list, for every value of its first byte (RFC 7845 5.2): least
+    significant bit set = opaque data every operation keeps byte for byte (C07 unmodified save, C02 save / delete);
+    clear = padding, of whatever bytes: gone after delete together with anything it contained (C08), and the comment
+    still round-trips (C01)"""
+    if not {"C01", "C02", "C07", "C08"} & set(checks):
+        return
+    from . import synth_ogg as SO
+    kind = KINDS["OggOpus"]
+    ident = _ogg_ident("OggOpus")
+    if ident is None:
+        return
+    for b0 in range(256):
+        odd = bool(b0 & 1)
+        trailer = bytes([b0]) + b"\x00ALBUM=" + TRAILER_MARK + b"\xfe\x00\x01" + bytes(5)
+        f0 = SO.opus_file(ident, trailer)
+        d = {"kind": "OggOpus", "layout": "data behind the comment list", "first_byte": b0}
+        try:
+            w0 = kind.walk(f0)
+            items0 = [(k.lower(), v) for k, v in w0["tags"]["items"]]
+            outs = {}
+            o = kind.open(io.BytesIO(f0))
+            b = io.BytesIO(f0); o.save(b); outs["unmodified save"] = b.getvalue()
+            o1 = kind.open(io.BytesIO(outs["unmodified save"]))
+            b = io.BytesIO(outs["unmodified save"]); o1.save(b); outs["second save"] = b.getvalue()
+            o2 = kind.open(io.BytesIO(f0)); o2.tags["title"] = ["new title " + "x" * (b0 % 7)]
+            b = io.BytesIO(f0); o2.save(b); outs["save"] = b.getvalue()
+            o3 = kind.open(io.BytesIO(f0))
+            b = io.BytesIO(f0); o3.delete(b); outs["delete"] = b.getvalue()
+            b = io.BytesIO(f0); kind.module_delete()(b); outs["module delete"] = b.getvalue()
+        except mutagen.MutagenError:
+            continue
+        except Exception as e:
+            for pid in ("C07", "C08"):
+                if pid in checks:
+                    _v(ctx, pid, "OggOpus: load/save/delete raised %s on a well-formed file" % type(e).__name__, d)
+            continue
+        ctx.oracle_cases += 1
+        ctx.count("ogg:opus-trailer-" + ("opaque" if odd else "padding"))
+        ctx.case(("OggOpus", "trailer", b0))
+        for op, out in outs.items():
+            dd = dict(d, op=op)
+            try:
+                w1 = kind.walk(out)
+            except W.Bad as e:
+                for pid in ("C07", "C02", "C08"):
+                    if pid in checks:
+                        _v(ctx, pid, "OggOpus: file cannot be walked after %s" % op, dict(dd, walker=str(e)[:160]))
+                continue
+            same = w1["foreign"] == w0["foreign"]
+            items1 = [(k.lower(), v) for k, v in w1["tags"]["items"]]
+            if op in ("unmodified save", "second save") and "C07" in checks:
+                if not same:
+                    lab = next((a[0] for a, c in zip(w0["foreign"], w1["foreign"]) if a != c), "?")
+                    _v(ctx, "C07", "OggOpus: data behind the comment list that has to be preserved lost by an unmodified load+save"
+                       if "trailer" in lab else "OggOpus: foreign container elements changed by load+save", dict(dd, element=lab))
+                if items1 != items0:
+                    _v(ctx, "C07", "OggOpus: tags changed by load+save without modification", dd)
+                if op == "second save" and out != outs["unmodified save"]:
+                    _v(ctx, "C07", "OggOpus: second save changes the file", dd)
+                if odd and op == "unmodified save" and out != f0:
+                    _v(ctx, "C07", "OggOpus: unmodified load+save rewrote a file whose comment packet admits no padding", dd)
+            if op in ("save", "delete", "module delete") and not same and "C02" in checks:
+                lab = next((a[0] for a, c in zip(w0["foreign"], w1["foreign"]) if a != c), "?")
+                _v(ctx, "C02", "OggOpus: foreign/audio data altered by %s: element %s" % (op.split(" ")[-1], lab.split("-", 1)[-1]), dict(dd, element=lab))
+            if op == "save" and "C01" in checks:
+                want = [kv for kv in items0 if kv[0] != b"title"] + [(b"title", ("new title " + "x" * (b0 % 7)).encode())]
+                if items1 != want:
+                    _v(ctx, "C01", "OggOpus: independent decoding of the saved bytes differs from what was set", dict(dd, decoded=repr(items1)[:160]))
+            if op in ("delete", "module delete") and "C08" in checks:
+                if items1:
+                    _v(ctx, "C08", "OggOpus: tags still present in the file after delete", dd)
+                if w1["padding"] not in (None, 0):
+                    _v(ctx, "C08", "OggOpus: tag padding left in the file after delete", dict(dd, padding=w1["padding"]))
+                if not odd and TRAILER_MARK in out:
+                    _v(ctx, "C08", "OggOpus: bytes of the old padding remain in the file after delete", dd)
+                try:
+                    re = list(kind.open(io.BytesIO(out)).tags)
+                except Exception as e:
+                    re = ("LOADFAIL", type(e).__name__)
+                if re != []:
+                    _v(ctx, "C08", "OggOpus: file loads with tags after delete", dict(dd, tags=repr(re)[:80]))
+
+
+OGG_SCENARIOS = (ogg_lacing_sweep, ogg_opus_trailer_sweep)
+
+
+def run(ctx, checks, only=None):
+    for fn in only or ((c01_pictures, c09_easy, c08_ape_stale_fragments, c02_stray_tag_marker) + OGG_SCENARIOS):
         try:
             fn(ctx, checks)
         except Exception as e:
